@@ -180,7 +180,7 @@ def foreign_execs(rng, scale):
 
 def jobs_c08(prop, tier, seed):
     rng = random.Random(seed * 7919 + 8)
-    s = 1 if tier == "quick" else 30
+    s = 1 if tier == "quick" else 60
     J = compose_jobs(COMPS_FB, ["base", "dbg"], 5 * s, 45, rng, "fallback")
     for cfg in ("rel", "base", "dbg"):
         J.append(Job(cfg, "seq", "SeqTrace", foreign_execs(rng, s), "foreign"))
@@ -189,7 +189,7 @@ def jobs_c08(prop, tier, seed):
 
 def jobs_c09(prop, tier, seed):
     rng = random.Random(seed * 7919 + 9)
-    s = 1 if tier == "quick" else 30
+    s = 1 if tier == "quick" else 60
     return (compose_jobs(COMPS_ALL, ["base", "dbg"], 3 * s, 45, rng, "adapters")
             + compose_jobs(COMPS_DEEP, ["base", "dbg"], 4 * s, 60, rng, "deep") + known_jobs(["base"]))
 
